@@ -9,7 +9,7 @@ import common
 import container as C
 from sx import Sym
 
-RULE = ("[plus long-lived objects: 3-8 step scripts of construct / explicit enter / reader with implicit context / the file under the path "
+RULE = ("[plus path spellings: relative, with ./.. components, Path objects, leading ~ with a same-named file in $HOME; every pre-existing file is compared before/after] [plus long-lived objects: 3-8 step scripts of construct / explicit enter / reader with implicit context / the file under the path "
         "replaced by TDF, junk, damaged signature, nothing, a directory, or deleted] all target kinds (absent; existing TDF; existing non-TDF; existing empty file; directory) x {Tdf.new, Tdf.copy, Tdf()+enter}; "
         "copy sources reached by seeded mutation histories; later mutations applied to the copy or to the original with the other "
         "file's bytes compared before/after; observed: exception class, bytes of every pre-existing target before/after, independent "
@@ -155,6 +155,7 @@ def run(ctx):
         finally:
             shutil.rmtree(d, ignore_errors=True)
     long_lived(ctx)
+    spellings(ctx)
     for (got, after, srcafter, rep), m in zip(expected, common.drv_batch(model_cmds)):
         m_out = str(m[0])
         canon = {"isDir": "invalid"}        # how a directory is refused on open is OS detail; only "refused" matters
@@ -164,6 +165,86 @@ def run(ctx):
         m_after = None if m[1] == "absent" else ("dir" if m[1] == "dir" else m[1])
         if m_after != after:
             ctx.diff("fs.bytes", f"{rep['op']} on {rep['target_kind']}: target after the call differs from the model", rep)
+
+
+def spellings(ctx):
+    """the same targets spelled in other ways: relative to the working directory, with `.`/`..` components, as Path objects,
+    and with a leading `~` (which open() does NOT expand: `~/x` is the file x in a directory called `~`) while a file of that
+    name exists in $HOME. Whatever the spelling: an existing target is refused, and NO pre-existing file anywhere changes."""
+    from pathlib import Path
+    from basictdf import Tdf
+    rng = ctx.rng
+    old_cwd, old_home = os.getcwd(), os.environ.get("HOME")
+    for k in range(ctx.n(60, 600)):
+        d = tempfile.mkdtemp(prefix="vtdf")
+        try:
+            cwd, home = os.path.join(d, "work"), os.path.join(d, "home")
+            os.makedirs(os.path.join(cwd, "sub"))
+            os.makedirs(home)
+            if rng.random() < 0.5:
+                os.makedirs(os.path.join(cwd, "~"))
+            good, _ = C.start_file(rng, "n3")
+            junk = bytes(rng.randrange(256) for _ in range(40))
+            for place in [os.path.join(home, "keep.tdf"), os.path.join(cwd, "keep.tdf"), os.path.join(cwd, "~", "keep.tdf"), os.path.join(cwd, "sub", "keep.tdf")]:
+                if os.path.isdir(os.path.dirname(place)) and rng.random() < 0.6:
+                    open(place, "wb").write(rng.choice([good, junk, b""]))
+            src = os.path.join(d, "src.tdf")
+            open(src, "wb").write(good)
+            os.chdir(cwd)
+            os.environ["HOME"] = home
+            spelled = rng.choice(["~/keep.tdf", "keep.tdf", "./keep.tdf", "sub/../keep.tdf", "sub/keep.tdf", "./sub/./keep.tdf", "../work/keep.tdf",
+                                  os.path.join(cwd, "keep.tdf"), "~/../keep.tdf", "fresh.tdf", "~/fresh.tdf"])
+            as_path = rng.random() < 0.4
+            literal = os.path.normpath(os.path.join(cwd, spelled))        # what open()/exists() mean by it (no ~ expansion)
+            if spelled.startswith("~/..") and not os.path.isdir(os.path.join(cwd, "~")):
+                literal = None                                             # `~/..` needs the directory `~` to exist
+            before = {}
+            for root, _, files in os.walk(d):
+                for f in files:
+                    before[os.path.join(root, f)] = open(os.path.join(root, f), "rb").read()
+            existed = literal is not None and os.path.exists(literal)
+            parent_ok = literal is not None and os.path.isdir(os.path.dirname(literal))
+            op = rng.choice(["new", "copy"])
+            C.Clock.now = C.T0 + k
+            exc = None
+            try:
+                arg = Path(spelled) if as_path else spelled
+                if op == "new":
+                    Tdf.new(arg)
+                else:
+                    Tdf(src).copy(arg)
+            except Exception as e:
+                exc = e
+            got = classify(exc)
+            rep = dict(op=op, spelled=spelled, as_path=as_path, existed=existed, files=sorted(os.path.relpath(p, d) for p in before))
+            ctx.case(("spelling", op, spelled, as_path, existed, k), nontrivial=existed or spelled.startswith("~"), tags=(f"spelling:{op}:{'existing' if existed else 'free'}:{got}",),
+                     sample=dict(op=op, target=spelled, existed=existed, outcome=got))
+            changed = [os.path.relpath(p, d) for p, b in before.items() if not os.path.exists(p) or open(p, "rb").read() != b]
+            if changed:
+                ctx.fail(f"{op}({spelled!r}) changed pre-existing file(s) {changed} (outcome {got})", rep, ident=f"{op} clobbers an existing file (path spelling)")
+                continue
+            if existed and got != "FileExistsError":
+                ctx.fail(f"{op}({spelled!r}): the target exists but the call gave {got} instead of FileExistsError", rep, ident=f"{op} existing target not refused (path spelling)")
+                continue
+            if not existed and parent_ok:
+                if got != "ok" or not os.path.exists(literal):
+                    ctx.fail(f"{op}({spelled!r}) on a free path with an existing directory: {got}, file created: {os.path.exists(literal)}", rep, ident=f"{op} free path (path spelling)")
+                    continue
+                made = open(literal, "rb").read()
+                if op == "copy" and made != good:
+                    ctx.fail(f"copy({spelled!r}) is not byte-identical to the original", rep, ident="copy not identical (path spelling)")
+                if op == "new" and (len(made) != 4096 or made[:16] != C.SIG):
+                    ctx.fail(f"new({spelled!r}) did not write the empty container", rep, ident="new file malformed (path spelling)")
+                extra = [p for p in (os.path.join(r_, f) for r_, _, fs in os.walk(d) for f in fs) if p not in before and os.path.normpath(p) != literal]
+                if extra:
+                    ctx.fail(f"{op}({spelled!r}) created {[os.path.relpath(p, d) for p in extra]} instead of / besides the target", rep, ident=f"{op} writes elsewhere (path spelling)")
+        finally:
+            os.chdir(old_cwd)
+            if old_home is None:
+                os.environ.pop("HOME", None)
+            else:
+                os.environ["HOME"] = old_home
+            shutil.rmtree(d, ignore_errors=True)
 
 
 def long_lived(ctx):
